@@ -126,6 +126,8 @@ class LogCapture:
             mm = re.match(r"Ignoring MAF validation error: ([A-Z_]+): (?:On line number (\d+): )?", m)
             if mm and level == "WARNING":
                 out.append([mm.group(1), int(mm.group(2)) if mm.group(2) else None])
+            elif m.startswith("No matching scheme was found") and level == "WARNING":
+                out.append(["NO_MATCHING_SCHEME_WARNING", None])
             else:
                 out.append(["OTHER:" + level, None])
         return out
@@ -158,7 +160,65 @@ def op_rec_from_line(req):
     return {"rec": record_json(rec), "logs": lc.parsed()}
 
 
-OPS = {"mro": op_mro, "col.build": op_col_build, "col.api": op_col_api,
+def header_json(h):
+    from maflib.header import MafHeader
+    recs = [[k, str(h[k])] for k in h]
+    so = h.sort_order()
+    return {"records": recs, "errors": errs_json(h.validation_errors), "version": h.version(),
+            "annotation": h.annotation(), "sort_order": so.name() if so is not None else None,
+            "sort_contigs": list(getattr(so, "_contigs", []) or []),
+            "contigs": h.contigs()}
+
+
+def op_hdr_lines(req):
+    from maflib.header import MafHeader
+    with LogCapture() as lc:
+        try:
+            h = MafHeader.from_lines(req["lines"], validation_stringency=MODES[req.get("mode")])
+        except Exception as e:  # noqa
+            return {"exc": exc_name(e)}
+    try:
+        sch = h.scheme()
+        sch = sch.annotation_spec() if sch is not None else None
+    except Exception as e:  # noqa
+        sch = "EXC:" + exc_name(e)
+    return {"header": header_json(h), "logs": lc.parsed(), "scheme": sch}
+
+
+def rec_summary(rec):
+    try:
+        s = {"ok": str(rec)}
+    except Exception as e:  # noqa
+        s = {"err": exc_name(e)}
+    return {"errors": errs_json(rec.validation_errors), "keys": list(rec), "str": s}
+
+
+def op_reader_run(req):
+    from maflib.reader import MafReader
+    given = scheme_by_annotation(req["given"]) if req.get("given") else None
+    with LogCapture() as lc:
+        try:
+            reader = MafReader(lines=list(req["lines"]), validation_stringency=MODES[req.get("mode")], scheme=given)
+        except Exception as e:  # noqa
+            return {"init_exc": exc_name(e)}
+        out = {"header": header_json(reader.header()), "init_errors": errs_json(reader.validation_errors)}
+        sch = reader.scheme()
+        out["scheme"] = None if sch is None else {"annotation": sch.annotation_spec(), "names": sch.column_names()}
+        recs = []
+        exc = None
+        try:
+            for rec in reader:
+                recs.append(rec_summary(rec))
+        except Exception as e:  # noqa
+            exc = exc_name(e)
+        out["records"] = recs
+        out["iter_exc"] = exc
+        out["errors"] = errs_json(reader.validation_errors)
+    out["logs"] = lc.parsed()
+    return out
+
+
+OPS = {"hdr.lines": op_hdr_lines, "reader.run": op_reader_run, "mro": op_mro, "col.build": op_col_build, "col.api": op_col_api,
        "rec.from_line": op_rec_from_line}
 
 
